@@ -143,6 +143,12 @@ def pre_formulas(tier: str):
               "(and (<= (h ?x ?y) 0.5))", "(and (p ?x) (>= (h ?y ?x) 1))", "(and (or (r) (< (h ?x ?y) (g ?y))))",
               "(and (>= (h ?x c) 1))", "(and (< (h c ?y) (h ?y c)) (p c))",
               "(and (>= (h c c) 1))", "(and (p ?x) (< (f) (+ (h c c) (g c))))",   # one constant in both places of a function term
+              # a quantifier over t1 whose body reads a root-typed predicate (m ?a - object) next to a t1-typed one
+              "(and (forall (?z - t1) (or (p ?z) (not (m ?z)))) (not (p c)))", "(and (forall (?z - t1) (or (not (m ?z)) (q c ?z))))",
+              # sibling compound sub-formulas that differ only in a numeral beyond the second decimal
+              "(and (or (r) (> (g ?x) 0.996)) (or (r) (> (g ?x) 1.004)))",
+              "(and (or (p ?x) (and (r) (<= (f) 1.996))) (or (p ?x) (and (r) (<= (f) 2.004))))",
+              "(and (forall (?z - t1) (or (p ?z) (>= (g ?z) 0.996))) (forall (?z - t1) (or (p ?z) (>= (g ?z) 1.004))))",
               "(and (p ?x) (p ?y))", "(and (not (p ?x)) (not (p ?y)) (r))", "(and (or (p ?x) (p ?y)) (p ?x))",
               "(and (m c))", "(and (not (m c)) (p ?x))", "(and (or (m c) (q ?x c)))",   # constant of a proper subtype of the position's type
               "(and (or (r) (>= (g ?x) 1)))", "(and (p ?x) (or (not (r)) (< (f) (g ?y))))",   # comparisons inside a disjunction
